@@ -15,7 +15,6 @@
    harness. [p_bound_first]/[p_sn_bound] select the repaired code (true) or the code before
    the two C04 fix: commits (false; kept for the refutation theorems). *)
 From HV Require Import Base.Prelude Storage.Crc32 Storage.Snappy.
-From Coq Require Import String Ascii.
 Local Open Scope N_scope.
 
 (* ---- outcomes --------------------------------------------------------------------------- *)
@@ -245,11 +244,9 @@ Inductive step :=
 
 Definition tail_class (eof : bool) : step := if eof then StEOF else StErr EShort.
 
-Definition next_block (pol : policy) (rest : list N) : step * list alloc :=
+(* at least one byte is left *)
+Definition next_block_ne (pol : policy) (rest : list N) : step * list alloc :=
   let log0 := [ABuf block_header_size] in
-  match rest with
-  | [] => (StEOF, log0)                                       (* Read: 0, io.EOF *)
-  | _ =>
     if lenN rest <? block_header_size then (tail_class (p_partial_hdr_eof pol), log0)
     else
       match bind (slice rest 0 block_header_size) bhdr_deserialize with
@@ -275,7 +272,12 @@ Definition next_block (pol : policy) (rest : list N) : step * list alloc :=
       | Err e => (StErr e, log0)
       | Panic => (StPanic, log0)
       | OutOfFuel => (StFuel, log0)
-      end
+      end.
+
+Definition next_block (pol : policy) (rest : list N) : step * list alloc :=
+  match rest with
+  | [] => (StEOF, [ABuf block_header_size])                   (* Read: 0, io.EOF *)
+  | _ => next_block_ne pol rest
   end.
 
 (* ReadAllEntries: all entries of all blocks in file order (the callback of LoadIndex never stops) *)
@@ -393,15 +395,6 @@ Definition alloc_bytes (a : alloc) : N :=
 Definition alloc_total (l : list alloc) : N := fold_left (fun s a => s + alloc_bytes a) l 0.
 
 (* ---- correspondence cases (harness/cmd/c04) ------------------------------------------------------------------- *)
-
-(* byte strings arrive as lower-case hex string literals (parsed much faster than lists of N) *)
-Definition hexval (c : ascii) : N :=
-  let n := N_of_ascii c in if n <? 58 then n - 48 else n - 87.
-Fixpoint hx (s : string) : list N :=
-  match s with
-  | String a (String b t) => (16 * hexval a + hexval b) :: hx t
-  | _ => []
-  end.
 
 Inductive obs_load := LOk (idx : index) (name : list N) | LErr (e : err) | LPanic | LTimeout.
 Inductive obs_scan := SOk (bc ec us : N) | SErr (e : err) | SPanic | STimeout.
